@@ -89,3 +89,51 @@ package builder
 //@   loop 1 invariant 0 <= argIndex(matcher) && argIndex(matcher) < len(additionalArgs)
 //@   loop 1 invariant typ == bmodel.exprType(node) && typ != nil && (i > 1 ==> !bmodel.returnsError(node))
 //@   loop 1 invariant i == 1 ==> node == additionalArgs[argIndex(matcher)]
+
+// ---- :conv, :map, $n (C06, C07, C02) --------------------------------------------------------------------------------------
+
+//@ spec plainPath(n bmodel.Node) bool =
+//@     is(n, bmodel.RootNode) ||
+//@     (is(n, bmodel.StructFieldNode) && plainPath(as(n, bmodel.StructFieldNode).parent)) ||
+//@     (is(n, bmodel.StructMethodNode) && bmodel.fnNRes(as(n, bmodel.StructMethodNode).method) == 1 && plainPath(as(n, bmodel.StructMethodNode).container))
+//@ spec rootOf(n bmodel.Node) bmodel.Node = cond(bmodel.parentOf(n) == nil, n, rootOf(bmodel.parentOf(n)))
+//@ spec convReady(c *option.FieldConverter) bool = c != nil && option.nmInv(c.m) && c.argType != nil && c.retType != nil
+//@ spec isSimple(a gmodel.Assignment, lhs string, rhs string, e bool) bool = a == box(gmodel.SimpleField{LHS: lhs, RHS: rhs, Error: e})
+//@ spec isNoMatch(a gmodel.Assignment, lhs string) bool = a == box(gmodel.NoMatchField{LHS: lhs})
+//@
+//@ func (*assignmentBuilder).createWithConverter$1() (r)
+//@   inline
+//@   loop 1 invariant bmodel.wfNode(root) && plainPath(root)
+//@
+//@ func (*assignmentBuilder).createWithConverter(b, lhs, rhs, converter) (a, err)
+//@   requires wfB(b) && bmodel.wfNode(lhs) && bmodel.wfNode(rhs) && plainPath(rhs) && convReady(converter)
+//@   use T10()
+//@   effects log
+//@   ensures {C06,C07,C05} err == nil && (is(a, gmodel.SimpleField) || isNoMatch(a, bmodel.assignExpr(lhs)))
+//@   ensures {C06,C07} is(a, gmodel.SimpleField) ==> as(a, gmodel.SimpleField).LHS == bmodel.assignExpr(lhs) && as(a, gmodel.SimpleField).Error == converter.retError
+//@   check {C06,C02,C01} is(a, gmodel.SimpleField) ==> converterNode != nil && as(a, gmodel.SimpleField).RHS == bmodel.assignExpr(converterNode) && assignable(bmodel.exprType(converterNode), bmodel.exprType(lhs))
+//@
+//@ func (*assignmentBuilder).createWithMapper$1() (r)
+//@   inline
+//@   loop 1 invariant bmodel.wfNode(root) && plainPath(root)
+//@
+//@ func (*assignmentBuilder).createWithMapper(b, lhs, rhs, mapper) (a, err)
+//@   requires wfB(b) && bmodel.wfNode(lhs) && bmodel.wfNode(rhs) && plainPath(rhs) && option.nmInv(mapper)
+//@   use T10()
+//@   effects log
+//@   ensures {C06,C07,C05} err == nil && (is(a, gmodel.SimpleField) || isNoMatch(a, bmodel.assignExpr(lhs)))
+//@   ensures {C06} is(a, gmodel.SimpleField) ==> as(a, gmodel.SimpleField).LHS == bmodel.assignExpr(lhs)
+//@   check {C06,C07,C02,C01} is(a, gmodel.SimpleField) ==> mappedNode != nil && as(a, gmodel.SimpleField).RHS == bmodel.assignExpr(mappedNode) && as(a, gmodel.SimpleField).Error == bmodel.returnsError(mappedNode) && assignable(bmodel.exprType(mappedNode), bmodel.exprType(lhs))
+//@
+//@ func (*assignmentBuilder).createWithTemplatedMapper$1() (r)
+//@   inline
+//@   atcall resolveTemplatedExpr: {C06,C02} len(args) == 1 + len(additionalArgs) && args[0] == rhs && forall(i, 0, len(additionalArgs), args[i+1] == additionalArgs[i])
+//@
+//@ func (*assignmentBuilder).createWithTemplatedMapper(b, lhs, rhs, additionalArgs, mapper) (a, err)
+//@   requires wfB(b) && bmodel.wfNode(lhs) && bmodel.wfNode(rhs) && plainPath(rhs) && option.nmInv(mapper) && len(mapper.src.paths[0]) >= 1
+//@   requires forall(i, 0, len(additionalArgs), bmodel.wfNode(additionalArgs[i]) && !bmodel.returnsError(additionalArgs[i]))
+//@   use T10()
+//@   effects log
+//@   ensures {C06,C07,C05} err == nil && (is(a, gmodel.SimpleField) || isNoMatch(a, bmodel.assignExpr(lhs)))
+//@   ensures {C06} is(a, gmodel.SimpleField) ==> as(a, gmodel.SimpleField).LHS == bmodel.assignExpr(lhs)
+//@   check {C06,C07,C02,C01} is(a, gmodel.SimpleField) ==> mappedNode != nil && as(a, gmodel.SimpleField).RHS == bmodel.assignExpr(mappedNode) && as(a, gmodel.SimpleField).Error == bmodel.returnsError(mappedNode) && assignable(bmodel.exprType(mappedNode), bmodel.exprType(lhs))
